@@ -60,8 +60,8 @@ PROPS["C15"] = dict(
     explanation=MIX)
 PROPS["C16"] = dict(
     level="other", claimed=True, verus=True,
-    level_text="Verus (body cut out of /repo): overlaps_with is true exactly when the two assertions name a common step of the same column, for every power-of-two trace length and all well-formed single / periodic / sequence shapes; Kani: the same with a counterexample for trace lengths <= 32; validate_trace_length / get_num_steps / the single, periodic and sequence constructors accept exactly the well-formed assertions; ConstraintDivisor numerators, exemptions and evaluate_at on bounded domains. Native bounded stand-in for BoundaryConstraints::new (BTreeMap / BTreeSet code): overlapping assertions are refused in every listing order; group divisors vanish exactly on the asserted steps and every constraint compares its cell with the asserted value, for all ordered pairs of assertions on trace lengths 8, 16, 32.",
-    level_note='Bounded (stated per obligation / stand-in). Not decided: divisor zero sets and value polynomials for all domain sizes; set_num_transition_exemptions beyond the exercised values.',
+    level_text="Verus (body cut out of /repo): overlaps_with is true exactly when the two assertions name a common step of the same column, for every power-of-two trace length and all well-formed single / periodic / sequence shapes; Verus (unit divisorv, bodies cut out of /repo, abstract field): ConstraintDivisor::from_assertion returns x^k - g^(k * first_step) for every trace length and validated assertion, evaluate_at is the in-order product of the numerator terms over the exemption product, and on the trace domain that numerator vanishes at step i exactly when i is an asserted step (relative to 'g has order exactly n', which C07 proves for the three fields); Kani: overlaps_with with a counterexample for trace lengths <= 32; validate_trace_length / get_num_steps / the single, periodic and sequence constructors accept exactly the well-formed assertions; ConstraintDivisor numerators, exemptions and evaluate_at on bounded domains. Native bounded stand-in for BoundaryConstraints::new (BTreeMap / BTreeSet code): overlapping assertions are refused in every listing order; group divisors vanish exactly on the asserted steps and every constraint compares its cell with the asserted value, for all ordered pairs of assertions on trace lengths 8, 16, 32.",
+    level_note='Bounded (stated per obligation / stand-in). Not decided: transition divisors (from_transition is an iterator-adapter body) and value polynomials for all domain sizes; set_num_transition_exemptions beyond the exercised values.',
     explanation=MIX)
 
 PROPS["C11"] = dict(
